@@ -111,7 +111,8 @@ def primKind (p : PrimSt) (t : Tid) (alt : Nat) : Kind :=
   match p with
   | .sem s => (match s.pc t with
       | .wait => if alt = 1 then .eintr else .normal
-      | .twait _ => if alt = 1 then .eintr else if alt = 2 then .timeout else .normal
+      -- alternative 3 = ENOSYS (budgeted, never taken by the default policy)
+      | .twait _ => if alt = 1 ∨ alt = 3 then .eintr else if alt = 2 then .timeout else .normal
       | _ => .normal)
   | .sig s => (match s.pc t with
       | .wBlocked _ => if alt = 0 then .spur else .timeout
@@ -124,12 +125,15 @@ def primKind (p : PrimSt) (t : Tid) (alt : Nat) : Kind :=
 def primMaxAlt (p : PrimSt) : Nat :=
   match p with
   | .mon s => max 3 s.waiters.length
-  | _ => 3
+  | _ => 4
 
 /-- a tick is offered while some thread sits in a timed wait whose (well-formed) deadline lies in the future -/
 def primWantsTick (p : PrimSt) (t : Tid) : Bool :=
   match p with
-  | .sem s => (match s.pc t with | .twait d => d.ts.valid && !d.expired s.now | _ => false)
+  | .sem s => (match s.pc t with
+      | .twait d => d.ts.valid && !d.expired s.now
+      | .pollSleep _ _ wake => decide (s.now < wake)      -- the usleep of the ENOSYS polling loop
+      | _ => false)
   | .sig s => (match s.pc t with | .wBlocked (some d) => d.ts.valid && !d.expired s.now | _ => false)
   | .mon s => (match s.pc t with | .wBlocked (some d) _ => d.ts.valid && !d.expired s.now | _ => false)
   | _ => false
